@@ -59,7 +59,7 @@ class AMul(Contract):
 class TrueDiv(Contract):
     qual = A('_truediv'); arrays = ('x_data', 'y_data', 'out'); modifies = ('out',); returns = 'out'
     cfgs = {'distinct': {}, 'x_is_y': {'alias': {'y_data': 'x_data'}}, 'out_is_x': {'alias': {'out': 'x_data'}}}
-    property_ids = ('C02', 'C14')
+    property_ids = ('C02', 'C12', 'C14')
     def requires(self, c): return [c.pre['y_data'][0] != 0]
     def ensures(self, c):
         x, y = c.pre['x_data'], c.pre['y_data']; o = c.cur('out')
@@ -78,7 +78,7 @@ class TrueDiv(Contract):
 class ITrueDiv(Contract):
     qual = A('_itruediv'); arrays = ('z_data', 'x_data'); modifies = ('z_data',); returns = 'none'
     cfgs = {'distinct': {}}
-    property_ids = ('C02',)
+    property_ids = ('C02', 'C12')
     def requires(self, c): return [c.pre['x_data'][0] != 0]
     def ensures(self, c):
         z0, x = c.pre['z_data'], c.pre['x_data']; z = c.cur('z_data')
@@ -96,7 +96,7 @@ class ITrueDiv(Contract):
 class Reciprocal(Contract):
     qual = A('_reciprocal'); arrays = ('y_data', 'out'); modifies = ('out',); returns = 'out'
     cfgs = {'out_none': {'out': None}, 'distinct': {}}
-    property_ids = ('C01', 'C02')
+    property_ids = ('C01', 'C02', 'C12', 'C14')
     def requires(self, c): return [c.pre['y_data'][0] != 0]
     def ensures(self, c):
         y = c.pre['y_data']; o = c.outarr()
@@ -243,7 +243,7 @@ class Sqrt(Elem1):
 class Square(Contract):
     qual = A('_square'); arrays = ('x_data', 'out'); modifies = ('out',); returns = 'out'
     cfgs = {'distinct': {}, 'out_none': {'out': None}, 'out_is_x': {'alias': {'out': 'x_data'}}}
-    property_ids = ('C01', 'C02', 'C14')
+    property_ids = ('C01', 'C02', 'C14', 'C12')
     lemma_depth = 1
     def ensures(self, c):
         x = c.pre['x_data']; o = c.outarr()
@@ -269,7 +269,7 @@ class PlusConst(Contract):
     file = 'algopy/utpm/algorithms.py'; qual = '_plus_const'
     arrays = ('x_data', 'out'); scalars = {'c': 'real'}; modifies = ('out',); returns = 'out'
     cfgs = {'out_none': {'out': None}, 'distinct': {}}
-    property_ids = ('C01', 'C02')
+    property_ids = ('C01', 'C02', 'C12')
     def ensures(self, c):
         cc = scalar_of(c, 'c'); ct = toR(cc.t)
         if c.has('out') and not isinstance(c, type(None)) and c.present.get('out', True) and 'out' in c._names and c.has('out') and c.cur('out') is not None and self._out_given(c):
@@ -291,7 +291,7 @@ class PlusConst(Contract):
 class Negative(Contract):
     qual = A('_negative'); arrays = ('x_data', 'out'); modifies = ('out',); returns = 'out'
     cfgs = {'distinct': {}, 'out_none': {'out': None}, 'out_is_x': {'alias': {'out': 'x_data'}}}
-    property_ids = ('C01',)
+    property_ids = ('C01', 'C12')
     def ensures(self, c):
         x = c.pre['x_data']; o = c.outarr()
         return [('out = -x', c.forall(0, c.D, lambda j: o[j] == -x[j]))]
@@ -303,7 +303,7 @@ class BlackFWhiteFprime(Contract):
     qual = '_black_f_white_fprime'
     arrays = ('fprime_data', 'x_data', 'out'); scalars = {'f': 'func'}; modifies = ('out',); returns = 'out'
     cfgs = {'distinct': {}, 'out_none': {'out': None}}
-    property_ids = ('C01',)
+    property_ids = ('C01', 'C12')
     def f0(self, c):
         from vc.engine import DER
         f = scalar_of(c, 'f'); tag = f.name + ''.join('|' + str(b.t) for b in f.bound)
@@ -363,10 +363,11 @@ class PowReal(Contract):
             for m in range(rv, -1, -1): out += S.pown_def(c, x, z3.IntVal(m), n)
             if rv == 2: out += S.conv_def(c, x, x, n)
         else:
-            nr = c.st.env.get('nr')
+            lb = getattr(c.ex, 'loop_bounds', {}).get(0)                        # the multiplication loop (whatever its variable is called / however it is indexed)
+            nr = c.st.env.get(lb[3]) if lb is not None else None
             if isinstance(nr, IntV):
-                if z3.eq(z3.simplify(n), z3.simplify(nr.t)): return []        # the loop variable is an exponent here, not an order
-                out += S.pown_def(c, x, nr.t + 1, n)                           # the invariant speaks about x^(*(nr+1)); at the goal nr is already the next value
+                if z3.eq(z3.simplify(n), z3.simplify(nr.t)): return []        # the loop variable counts products here, it is not an order
+                out += S.pown_def(c, x, nr.t - lb[0] + 1, n)                   # before the iteration with index v:  y = x^(*(v - lo + 1)); at the goal v is already the next value
             else: out += S.pown_def(c, x, r, n)
         return out
     def extra_axioms(self, c):
@@ -374,9 +375,9 @@ class PowReal(Contract):
         x = c.pre['x_data']; m = z3.Int('m!pw1')
         return [z3.ForAll([m], S.POWN(x, z3.IntVal(1), m) == x[m])]
     def invariants(self):
-        def inv_nat(c, nr):          # loop over nr in range(r-1): before iteration nr, y = x^(nr+1)
-            x = c.pre['x_data']; y = c.cur('out')
-            return [c.forall(0, c.D, lambda j: y[j] == S.POWN(x, nr + 1, j))] + c.unchanged('x_data')
+        def inv_nat(c, nr):          # after `it` completed products:  y = x^(*(it+1))   (r-1 products in total)
+            x = c.pre['x_data']; y = c.cur('out'); it = c.iters
+            return [c.forall(0, c.D, lambda j: y[j] == S.POWN(x, it + 1, j))] + c.unchanged('x_data')
         def inv_real(c, d):
             x = c.pre['x_data']; y = c.cur('out'); kind, r = self._kind(c)
             return [c.forall(0, d, lambda j: y[j] == S.POWR(x, r, j))] + c.unchanged('x_data')
